@@ -87,7 +87,13 @@ def gen_D(d: gen.D) -> str:
 def _case(draw):
     d = gen.D(draw)
     kind = d.weighted([(4, "seed"), (2, "book"), (2, "label"), (3, "inline")])
-    cfg = gen.maybe_late(d, d.pick([C.simple("commonmark"), C.simple("js-default"), C.simple("commonmark", inline_definitions=True, store_labels=True), C.simple("js-default", html=True)]))
+    cfg = gen.maybe_late(d, d.pick([C.simple("commonmark"), C.simple("js-default"), C.simple("commonmark", inline_definitions=True, store_labels=True), C.simple("js-default", html=True), C.simple("commonmark", disable=["code"]), C.simple("js-default", disable=["code", "table"])]))
+    if kind == "inline" and d.chance(0.25):
+        # any rule subset that keeps the constructs the property is about
+        cfg = gen.config_d(d, allow_linkify=False)
+        cfg["disable"] = [r for r in cfg["disable"] if r not in ("link", "image", "reference", "escape", "entity")]
+        if cfg["preset"] == "zero":
+            cfg["enable"] = sorted(set(cfg["enable"]) | {"link", "image", "reference", "escape", "entity"})
     if kind == "seed":
         return {"kind": kind, "cfg": cfg, "R": gen_defs(d), "D": gen_D(d)}
     if kind == "book":
@@ -117,8 +123,12 @@ def _case(draw):
         dest = core
     tk = d.i(0, 4)
     tcore = "".join(d.pick(["t", " ", "u", "&quot;", "\\\"", "\\'", "\\(", "\\)", "*e*", "é", "&amp;", "<b>", "\\\\"]) for _ in range(d.i(1, 6))).strip() or "t"
-    if d.chance(0.2):
-        tcore = tcore + "\nline2 " + tcore
+    if d.chance(0.25):
+        # continuation lines of a title: plain text, or lines that look like the start of another block (whatever they do
+        # to the paragraph they do to the definition as well; a setext underline '===' is left out - there the two
+        # grammars differ by design of the rule order, see DESIGN.md)
+        cont = d.pick(["line2 " + tcore, "line2 " + tcore, "-", "- ", "- x", "+", "*", "    # b", "     - b", "    > b", "    ```", "2. x", "1. x", "1.", "> q", "```", "***", "# h", "    code", "<div>", "---", "\tq", "| a |", "[z]: /w"])
+        tcore = tcore + "\n" + cont + d.pick(["", "\nz"])
     if tk == 0:
         title = ""
     elif tk in (1, 2):
